@@ -81,7 +81,9 @@ def segments(term, P):
             segs.append(Seg('fld', size=1, signed=False, fkind='int',
                             order='any', operand=op_, arg=arg, fmt='B'))
         elif isinstance(p, Sym) and p.op == 'utf8':
-            segs.append(Seg('utf8', of=p.args[0], term=p))
+            segs.append(Seg('utf8', of=p.args[0], term=p,
+                            errors=p.args[1] if len(p.args) > 1
+                            else 'strict'))
         elif p is P:
             segs.append(Seg('raw', of=p, term=p))
         elif isinstance(p, Sym) and p.op == 'more':
@@ -312,7 +314,39 @@ def pair(E, D, skip_prefix=0, reach=None):
                         'the expected constant tag'))
             continue
         res.extend(_pair_path(ep, segs, D, reach))
+        res.extend(_type_clause(ep, D))
     return res
+
+
+_TYPE_COMPAT = {'struct_time': 'datetime'}
+
+
+def _type_clause(ep, D):
+    """Pair clause (5): the Python type the decoder returns for
+    well-formed data is the type the encoder's guard requires."""
+    gt = ep.guard_types
+    if not gt:
+        return []
+    prim = set()
+    unknown = False
+    for dp in D.paths:
+        fallback = any(isinstance(a, Sym) and a.op == 'not' and
+                       isinstance(a.args[0], Sym) and
+                       a.args[0].op == 'ok' and a.args[0].args[0] == 'utf8'
+                       for a in dp.kn.atoms)
+        if fallback:
+            continue
+        k = dp.value_kind()
+        if k is None:
+            unknown = True
+        else:
+            prim |= k
+    if unknown or not prim:
+        return []
+    want = {_TYPE_COMPAT.get(g, g) for g in gt}
+    okk = want <= prim
+    return [('type', okk, 'encoder accepts %s, decoder returns %s for '
+             'well-formed data' % (sorted(gt), sorted(prim)))]
 
 
 def _pair_path(ep, segs, D, reach=None):
@@ -330,6 +364,22 @@ def _pair_path(ep, segs, D, reach=None):
     if any(s.kind == 'other' for s in segs):
         return [('layout', None, 'unrecognised piece in encoder output: %r'
                  % ([s for s in segs if s.kind == 'other'][:1],))]
+    for s in segs:
+        if s.kind == 'utf8':
+            dec_err = set()
+            for dp in D.paths:
+                for t in T.subterms(dp.value):
+                    if t.op == 'decode_utf8':
+                        dec_err.add(t.args[1] if len(t.args) > 1
+                                    else 'strict')
+            okc = s.errors == 'strict' and dec_err <= {'strict'}
+            res.append(('codec', okc,
+                        'text written with UTF-8 errors=%r, read with '
+                        'errors=%r: %s' % (
+                            s.errors, sorted(map(str, dec_err)),
+                            'same strict codec on both sides' if okc else
+                            'a lenient handler makes the two sides '
+                            'disagree on ill-formed text')))
     for dp in D.paths:
         reads = list(dp.reads.values())
         used = set()
